@@ -1,7 +1,6 @@
 package parse
 
 import (
-	"bufio"
 	"strings"
 )
 
@@ -11,9 +10,9 @@ const (
 )
 
 func SettingLines(comment string) (lines []string) {
-	scanner := bufio.NewScanner(strings.NewReader(comment))
-	for scanner.Scan() {
-		line := strings.TrimSpace(scanner.Text())
+	// (no bufio.Scanner: it gives up silently at the first line longer than 64 KiB)
+	for _, text := range strings.Split(comment, "\n") {
+		line := strings.TrimSpace(text)
 		if strings.HasPrefix(line, Prefix+Delimiter) {
 			line := strings.TrimPrefix(line, Prefix+Delimiter)
 			lines = append(lines, line)
